@@ -98,6 +98,14 @@ def _writeall_linear(ctx, func, cfgnode, call):
     buf = unawait(call.args[0])
     staged = None
     if isinstance(buf, ast.Name) and buf.id not in func.params:
+        # the slice is named just before the write (`pending = data[sent:]` at the top of the body): read it where it is written, provided nothing
+        # it mentions changes between the two points
+        d0 = df.unique_def(cfgnode, buf.id)
+        if d0 is not None and d0.kind == "assign" and not d0.path and d0.value is not None and d0.node in inside and g.dominates([d0.node], cfgnode):
+            names0 = set(n.id for n in ast.walk(d0.value) if isinstance(n, ast.Name))
+            if all(set(df.reaching(d0.node, v)) == set(df.reaching(cfgnode, v)) for v in names0):
+                buf = unawait(d0.value)
+    if isinstance(buf, ast.Name) and buf.id not in func.params:
         # the remainder is kept in a variable: `pending = data` before the loop, `pending = data[sent:]` after each count
         P = buf.id
         defs = list(df.reaching(cfgnode, P))
